@@ -16,7 +16,7 @@ Proof.
   - destruct w; [discriminate|]. destruct r; [|discriminate]. inversion H; subst; cbn; auto.
   - unfold is_writer in H; cbn in H. destruct w; [|discriminate]. destruct (Nat.eqb n t); [|discriminate].
     inversion H; subst; cbn. intros; discriminate.
-  - destruct w; [discriminate|]. inversion H; subst; cbn. intros; discriminate.
+  - destruct w; [discriminate|]. unfold is_reader in H; cbn in H. destruct (existsb _ _); [discriminate|]. inversion H; subst; cbn. intros; discriminate.
   - destruct (remove_one t r) eqn:E; [|discriminate]. inversion H; subst; cbn. intros t0 Hw.
     rewrite (I t0 Hw) in E. discriminate.
   - destruct (_ || _); [|discriminate]. inversion H; subst; auto.
@@ -93,7 +93,7 @@ Proof.
       * destruct (writer s); [discriminate|]. destruct (readers s); [|discriminate]. inversion E; subst.
         unfold is_writer in W1; cbn in W1. apply Nat.eqb_eq in W1. subst. exists [], mid. reflexivity.
       * destruct (is_writer s t); [|discriminate]. inversion E; subst. discriminate.
-      * destruct (writer s) eqn:Ws; [discriminate|]. inversion E; subst. discriminate.
+      * destruct (writer s) eqn:Ws; [discriminate|]. destruct (is_reader s t) eqn:Ir; [discriminate|]. inversion E; subst. discriminate.
       * destruct (remove_one t (readers s)); [|discriminate]. inversion E; subst.
         unfold is_writer in *; cbn in *. congruence.
       * destruct (_ || _); [|discriminate]. inversion E; subst. congruence.
@@ -117,7 +117,7 @@ Proof.
         exists [], (LLock t2), mid, true. split; [reflexivity|cbn; auto].
       * destruct (is_writer s t); [|discriminate]. inversion E; subst.
         unfold holds, is_writer, is_reader in *; cbn in *. congruence.
-      * destruct (writer s) eqn:Ws; [discriminate|]. inversion E; subst.
+      * destruct (writer s) eqn:Ws; [discriminate|]. destruct (is_reader s t) eqn:Ir; [discriminate|]. inversion E; subst.
         unfold holds, is_writer, is_reader in *; cbn in *. rewrite Ws in *. cbn in H1.
         rewrite Nr, orb_false_r in H1. apply Nat.eqb_eq in H1. subst.
         exists [], (LRLock t), mid, false. split; [reflexivity|cbn; auto].
@@ -179,7 +179,7 @@ Proof.
     destruct e; cbn in E.
     + rewrite Wn in E. unfold is_reader in Rd. destruct (readers s); [discriminate|discriminate].
     + unfold is_writer in E. rewrite Wn in E. discriminate.
-    + rewrite Wn in E. inversion E; subst. apply Keep. unfold is_reader in *; cbn. rewrite Rd. apply orb_true_r.
+    + rewrite Wn in E. destruct (is_reader s t) eqn:Ir; [discriminate|]. inversion E; subst. apply Keep. unfold is_reader in *; cbn. rewrite Rd. apply orb_true_r.
     + destruct (remove_one t (readers s)) as [r|] eqn:Rm; [|discriminate]. inversion E; subst.
       destruct (Nat.eq_dec t t1) as [->|Nt].
       * destruct (is_reader {| writer := writer s; readers := r |} t1) eqn:Rd1; [now apply Keep|].
@@ -229,3 +229,12 @@ Proof.
     destruct (reader_then_writer t1 t2 mid s0 s1 I0 Rd Ne Rm W2) as [a [b [c Hm]]].
     exists a, (LRUnlock t1), b, (LLock t2), c, false, true. repeat split; auto.
 Qed.
+
+(* a thread never takes the lock in read mode while it already holds it in read mode: with
+   sync.RWMutex a writer arriving between the two acquisitions waits for the first to be released
+   and keeps the second out — a deadlock that needs no second reader *)
+Theorem no_recursive_read_lock s t s' : lkstep s (LRLock t) = Some s' -> is_reader s t = false /\ writer s = None.
+Proof.
+  cbn. destruct (writer s); [discriminate|]. destruct (is_reader s t); [discriminate|]. auto.
+Qed.
+
